@@ -286,7 +286,7 @@ def coq_case(c):
 # ====================================================================== canonical forms
 def canon_trees_model(v):
     if v[0] == "ROk":
-        return ["ok", [[list(c), [[list(e[0]), e[1], e[2], list(e[3])] for e in es]] for c, es in v[1]]]
+        return ["ok", [[[x, y], [[list(e[0]), e[1], e[2], list(e[3])] for e in es]] for x, y, es in v[1]]]
     if v[0] == "RMultisource":
         return ["multisource", v[1], v[2], list(v[3])]
     return ["other"] if v[0] == "ROther" else ["outoffuel"]
@@ -305,8 +305,8 @@ def canon_titem(t):
 def canon_load_model(v, c):
     res, trace, dig, rbs = v
     out = {"LOk": ["ok"], "LOther": ["other"]}.get(res[0]) or ["routererror"] + list(res[1:])
-    digest = [[xy[0], xy[1], [[[i, list(s)] for i, s in d[0]], [list(b) for b in d[1]], d[2]]]
-              for xy, d in dig]
+    digest = [[x, y, [[[i, list(s)] for i, s in d[0]], [list(b) for b in d[1]], d[2]]]
+              for x, y, d in dig]            # Coq prints ((x, y), d) as (x, y, d)
     readback = []
     for (x, y, _), (r, t) in zip(c["chips"], rbs):
         if r[0] == "Ok":
